@@ -2884,6 +2884,8 @@ def ext_class_attr(interp, cls: ClassInfo, eb: ExtRef, name: str) -> Any:
         return ExtMethod(cls, "tuple_new", "__new__")
     if name == "__init__":
         return ExtMethod(cls, "object_init", "__init__")
+    if name == "__init_subclass__":
+        return ExtMethod(cls, "object_init", "__init_subclass__")
     return MISSING
 
 
